@@ -1,8 +1,10 @@
 """C18 - Bloom filter: no false negatives; bit fields are independent saturating counters.
 
 proof: lean/CashewsVerif/Props/C18.lean (field algebra of get/set/incr on Nat for every index/width/increment,
-       refinement of the ideal counter array for every history, get_indexes: k distinct indexes < m when a
-       result is returned, bloom: no false negatives for every add sequence and every index function).
+       refinement of the ideal counter array for every history - also for keys with a lifetime: expire / delete /
+       passage of time over the lazily purging store refine an eagerly expiring counter array -, get_indexes: k
+       distinct indexes < m when a result is returned, bloom: no false negatives for every add sequence, every index
+       function and every pair of equivalent call forms, also on a filter key with a deadline while it stays alive).
 tie:   the real `Bitarray`, `Memory.get_bits/incr_bits`, the `Cache` facade, `get_indexes`, the `bloom` /
        `dual_bloom` decorators and `params_for` from $VERIF_REPO are run on enumerated and generated inputs and
        compared with (a) the compiled Lean model (lean/Drivers/C18.lean) and (b) the property statement itself
@@ -29,8 +31,12 @@ TRUSTED = [
     "cashews/decorators/bloom.py and Memory.get_bits/incr_bits, tied to the code by this run's correspondence",
     "zlib.crc32 (and any other entry of split_hash.algorithms) is uninterpreted: every theorem holds for an arbitrary hash; the harness "
     "feeds the model the real hash values of the probe strings (theorem indexes_depend_only_on_probes licenses the table)",
-    "the bloom key of an element is taken from cashews.key.get_cache_key (C08's subject), the filter parameters (m, k) from params_for "
-    "(floating point, not modelled; only 0 < k <= m is checked on a grid)",
+    "an element is the tuple of a call's bound arguments after defaults; its bloom key is taken from cashews.key.get_cache_key (C08's "
+    "subject) applied to the CANONICAL call (every parameter by keyword, defaults filled in) - the decorator is then called in a randomly "
+    "chosen equivalent call form and the indexes that reach the backend are compared with the model's; the filter parameters (m, k) come "
+    "from params_for (floating point, not modelled; only 0 < k <= m is checked on a grid)",
+    "virtual clock (harness/vtime.py, 1 tick = 1/8 s, dyadic TTLs); the backend runs with check_interval=0, i.e. without its purge task: a "
+    "run-out entry stays physically stored until a command reads it (one sweep of the purge task on a key is what `exists` does to it)",
     "harness: canonicalisation (sorted index sets, truthiness of answers), recording middleware / Memory subclass, probe-limit wrapper "
     "around the hash functions",
     "Python's arbitrary-precision int operators (>>, <<, &, |, ~) agree with Lean's Nat operators (validated by the correspondence itself)",
@@ -41,7 +47,10 @@ PARTIAL = (
     "the harness measures the re-probe counts that occur and bounds the real loop with a probe limit); params_for's floating-point formulas "
     "are not modelled (0 < k <= m checked on a capacity x false-positive grid only); crc32 is uninterpreted; the C-accelerated "
     "_bitarray_lib.Bitarray (used when the `bitarray` package is installed) and the xxhash algorithms are not installed here and not run; "
-    "dual_bloom is tied to its model only (its documentation allows false negatives, the property is about `bloom`); Redis/diskcache "
+    "dual_bloom is tied to its model (its documentation allows false negatives, the property is about `bloom`) plus the one property-level "
+    "statement that holds for it: an element it has recorded in its true filter is never answered False (theorem dual_recorded_never_false); "
+    "dual_bloom's two keys are not given deadlines; the purge task of the in-memory backend is not run (its effect on a key = `exists`); "
+    "positional-only parameters, *args / **kwargs predicates and methods (self) are not among the generated signatures; Redis/diskcache "
     "bit-field commands belong to C19"
 )
 
@@ -89,9 +98,36 @@ def gen_hist(rng, n: int) -> dict:
     w = rng.choice(WIDTHS)
     nkeys = 1 if rng.random() < 0.7 else 2
     pool = [0, 1, 2, 3, 5, 8] if rng.random() < 0.7 else [0, 1, 2, rng.randint(3, 63), rng.randint(3, 63), 63]
+    # bit-field keys live in the TTL store: about half of the histories that go through a backend also give keys a
+    # deadline (`expire`), let virtual time pass - often exactly up to / just short of / past a deadline, with nothing
+    # touching the key in between (no purge task) -, delete keys and probe them with `exists`
+    timed = cfg != "bitarray" and rng.random() < 0.55
     ops = []
+    now = 0
+    deadlines: dict = {}
     for _ in range(rng.randint(1, 25)):
         key = rng.randrange(nkeys)
+        t = rng.random()
+        if timed and t < 0.36:
+            u = rng.random()
+            if u < 0.3:
+                ttl = rng.choice([1, 2, 8, 9, 16, 80])
+                ops.append(["expire", key, ttl])
+                deadlines[key] = now + ttl      # (if the key is live; good enough to aim the clock)
+            elif u < 0.8:
+                pending = [d - now for d in deadlines.values() if d > now]
+                if pending and rng.random() < 0.7:
+                    dt = max(1, rng.choice(pending) + rng.choice([-1, 0, 0, 1, 8]))
+                else:
+                    dt = rng.choice([1, 7, 8, 9, 100])
+                ops.append(["adv", dt])
+                now += dt
+            elif u < 0.9:
+                ops.append(["del", key])
+                deadlines.pop(key, None)
+            else:
+                ops.append(["touch", key])
+            continue
         idxs = [rng.choice(pool) for _ in range(rng.choice([0, 1, 1, 2, 3, 4]))]
         if rng.random() < 0.65:
             by = rng.choice([1, 1, 1, -1, 2, -2, 3]) if rng.random() < 0.6 else gen_by(rng, w)
@@ -126,29 +162,69 @@ CAPS = [1, 2, 3, 5, 8, 13, 30, 100, 400]
 FPS = [0.1, 1, 5, 10, 25, 50, 70, 80]
 
 
+def gen_element(rng, sig: str, serial: int) -> list:
+    """the bound arguments of one call (after defaults); defaulted parameters hold their default most of the time"""
+    names, _, defaults = bb.SIGS[sig]
+    el = []
+    for n in names:
+        if n in defaults:
+            el.append(defaults[n] if rng.random() < 0.65 else gen_text(rng, 3) + "v")
+        elif n == names[0]:
+            el.append(gen_text(rng, 6) + str(serial))
+        else:
+            el.append(gen_text(rng, 3) + str(serial % 3))
+    return el
+
+
+def gen_sig(rng):
+    sig = rng.choice(["k", "k", "k_t", "k_t", "k_kwt", "a_b", "k_t_u"])
+    name = rng.choice(bb.SIG_NAMES[sig]) if rng.random() < 0.7 else None
+    return sig, name
+
+
 def gen_bloom(rng, n: int, big: int) -> dict:
     cap = rng.choice(CAPS)
     fp = rng.choice(FPS)
+    sig, name = gen_sig(rng)
     nadd = min(rng.choice([0, 1, max(1, cap // 2), cap, cap + 1, 2 * cap, 5 * cap]), big)
     universe = []
     seen = set()
     while len(universe) < nadd + 12:
-        e = gen_text(rng, 6) + str(len(universe))
-        if e not in seen:
-            seen.add(e)
+        e = gen_element(rng, sig, len(universe))
+        if tuple(e) not in seen:
+            seen.add(tuple(e))
             universe.append(e)
     true_set = [e for e in universe if rng.random() < 0.8]
     adds = [rng.choice(universe) for _ in range(nadd)]
+    # every add / query picks one of the element's equivalent call forms (positional / keyword / default omitted) at random
+    form = lambda: rng.randrange(12)  # noqa: E731
+    # the filter's key lives in the TTL store: a share of the cases rotates the filter (`expire` on its key), lets time
+    # pass (up to / past the deadline, nothing touching the key in between), deletes or probes the key
+    timed = rng.random() < 0.4
+    ttl = rng.choice([2, 8, 16, 80])
     steps = []
     for e in adds:
-        steps.append(["add", e])
+        steps.append(["add", e, form()])
         if rng.random() < 0.1:
-            steps.append(["query", rng.choice(universe)])
-    queries = list(dict.fromkeys(adds)) + universe[-12:]
+            steps.append(["query", rng.choice(universe), form()])
+        if timed and rng.random() < 0.5:
+            u = rng.random()
+            if u < 0.35:
+                steps.append(["expire", ttl])
+            elif u < 0.8:
+                steps.append(["adv", rng.choice([1, ttl - 1, ttl, ttl, ttl + 1])])
+            elif u < 0.9:
+                steps.append(["touch"])
+            else:
+                steps.append(["del"])
+    queries = []
+    for e in list(dict.fromkeys(map(tuple, adds))) + [tuple(e) for e in universe[-12:]]:
+        if e not in queries:
+            queries.append(e)
     rng.shuffle(queries)
-    steps += [["query", e] for e in queries[:big]]
+    steps += [["query", list(e), form()] for e in queries[:big]]
     return {"kind": "bloom", "via": "facade" if n % 2 == 0 else "direct", "capacity": cap, "fp": fp, "chk": rng.random() < 0.5,
-            "name": "el:{k}" if rng.random() < 0.7 else None, "truthy": rng.choice(["bool", "bool", "int", "str", "none"]),
+            "sig": sig, "name": name, "truthy": rng.choice(["bool", "bool", "int", "str", "none"]),
             "true_set": true_set, "steps": steps}
 
 
@@ -156,11 +232,16 @@ def gen_dual(rng, n: int) -> dict:
     cap = rng.choice([1, 2, 3, 5, 8, 30])
     capacity = cap if rng.random() < 0.6 else [cap, rng.choice([1, 3, 10])]
     false = rng.choice([1, 5, 20, 50]) if rng.random() < 0.6 else [rng.choice([1, 10]), rng.choice([5, 50])]
-    universe = [gen_text(rng, 4) + str(i) for i in range(rng.randint(2, 3 * cap + 6))]
+    sig, name = gen_sig(rng)
+    universe = []
+    for i in range(rng.randint(2, 3 * cap + 6)):
+        e = gen_element(rng, sig, i)
+        if e not in universe:
+            universe.append(e)
     true_set = [e for e in universe if rng.random() < 0.5]
-    calls = [rng.choice(universe) for _ in range(rng.randint(1, 40))]
+    calls = [[rng.choice(universe), rng.randrange(12)] for _ in range(rng.randint(1, 40))]      # [element, call form]
     return {"kind": "dual", "via": "facade" if n % 2 == 0 else "direct", "capacity": capacity, "false": false,
-            "no_collisions": rng.random() < 0.5, "name": "el:{k}" if rng.random() < 0.7 else None, "true_set": true_set, "calls": calls}
+            "no_collisions": rng.random() < 0.5, "sig": sig, "name": name, "true_set": true_set, "calls": calls}
 
 
 PARAM_CAPS = list(range(1, 65)) + [100, 128, 1000, 4096, 10 ** 4, 10 ** 5, 10 ** 6, 10 ** 7, 10 ** 9]
@@ -247,7 +328,7 @@ def shrink(case: dict, want_spec: bool) -> dict:
         cur = dict(case, ops=ops)
         for n, op in enumerate(list(cur["ops"])):
             idxs = op[-1]
-            if len(idxs) > 1:
+            if op[0] in ("incr", "get") and len(idxs) > 1:
                 small = ddmin(idxs, lambda l: f(dict(cur, ops=cur["ops"][:n] + [op[:-1] + [l]] + cur["ops"][n + 1:])))
                 cur = dict(cur, ops=cur["ops"][:n] + [op[:-1] + [small]] + cur["ops"][n + 1:])
         return cur
@@ -269,10 +350,21 @@ def shrink(case: dict, want_spec: bool) -> dict:
             cur = dict(cur, algs="real")
         return cur
     if kind == "bloom":
-        return dict(case, steps=ddmin(case["steps"], lambda s: f(dict(case, steps=s))))
+        cur = dict(case, steps=ddmin(case["steps"], lambda s: f(dict(case, steps=s))))
+        used = [st[1] for st in cur["steps"] if st[0] in ("add", "query")]
+        return _shrink_elements(cur, used, f)
     if kind == "dual":
-        return dict(case, calls=ddmin(case["calls"], lambda s: f(dict(case, calls=s))))
+        cur = dict(case, calls=ddmin(case["calls"], lambda s: f(dict(case, calls=s))))
+        return _shrink_elements(cur, [c[0] if isinstance(c, list) else c for c in cur["calls"]], f)
     return case
+
+
+def _shrink_elements(cur: dict, used: list, f) -> dict:
+    """keep only the elements the remaining steps mention in `true_set`"""
+    keep = [e for e in cur["true_set"] if e in used]
+    if keep != cur["true_set"] and f(dict(cur, true_set=keep)):
+        cur = dict(cur, true_set=keep)
+    return cur
 
 
 SIGNATURES = {"incr1": "bitfield-single-command", "hist": "bitfield-history", "idx": "get_indexes", "bloom": "bloom-false-negative",
@@ -430,9 +522,12 @@ def run(chk: Check) -> int:
         "distinct_nontrivial": len(distinct) + ex_nontrivial,
         "rule": "a case is non-trivial iff it reached an interesting state: bit fields - the counter is clipped at 2^w-1 or at 0, or other "
                 "fields are non-zero while one is written (counted separately for widths that are not powers of two), an index repeated "
-                "in one command, a never-written field read, two keys interleaved; get_indexes - at least one re-probe, k = m, k > m "
-                "(assertion); bloom - a query for an added element (also beyond capacity), a false positive observed, the decorator "
-                "refusing its parameters; dual_bloom - an answer given from the filters alone; params_for cases are never counted. "
+                "in one command, a never-written field read, two keys interleaved, a deadline set / kept by an increment / passed, an "
+                "increment or read on a run-out entry nothing has touched since its deadline (still physically stored), a live array deleted; "
+                "get_indexes - at least one re-probe, k = m, k > m (assertion); bloom - a query for an added element (also beyond capacity, "
+                "also in another call form than the one it was added through), a false positive observed, the decorator refusing its "
+                "parameters, an add / query on a run-out unpurged filter key, a filter deadline set / passed; dual_bloom - an answer given "
+                "from the filters alone, a call for an element recorded as true (also in another call form); params_for cases are never counted. "
                 "distinct = distinct canonical case (JSON) among generated ones + the enumerated non-trivial ones",
         "exhaustive": True,
         "exhaustive_subspaces": [
